@@ -54,38 +54,40 @@ type Observation struct {
 	Events     []obsItem `json:"events"`
 	Resps      []respObs `json:"resps"`
 	PidMsgs    int       `json:"pid_msgs"`
-	Signals    []string  `json:"signals"`   // TERM/INT seen by the main child, in order
-	Resubs     int       `json:"resubs"`    // re-subscriptions (the event loop ended with an error)
-	Crashed    bool      `json:"crashed"`   // the executor process died (Go panic / fatal error / exit)
-	ExitedBy   string    `json:"exited_by"` // "" alive at the end | "panic" | "exit N" | "signal"
-	Survivors  int       `json:"survivors"` // live (non-zombie) processes left in the task's process groups
-	MainAlive  bool      `json:"main_alive"` // a task child proper is still running
-	GcAlive    bool      `json:"gc_alive"`   // a process forked by a task child is still running
+	Signals    []string  `json:"signals"`     // TERM/INT seen by the main child, in order
+	Resubs     int       `json:"resubs"`      // re-subscriptions (the event loop ended with an error)
+	Crashed    bool      `json:"crashed"`     // the executor process died (Go panic / fatal error / exit)
+	ExitedBy   string    `json:"exited_by"`   // "" alive at the end | "panic" | "exit N" | "signal"
+	Survivors  int       `json:"survivors"`   // live (non-zombie) processes left in the task's process groups
+	MainAlive  bool      `json:"main_alive"`  // a task child proper is still running
+	GcAlive    bool      `json:"gc_alive"`    // a process forked by a task child is still running
 	BeforeKill int       `json:"before_kill"` // statuses seen when the first KILL was sent (all, without KILL)
-	KillMs     int       `json:"kill_ms"`  // KILL request -> whole group gone (-1: n/a or never)
+	KillMs     int       `json:"kill_ms"`     // KILL request -> whole group gone (-1: n/a or never)
 	Unrealised []string  `json:"unrealised,omitempty"`
 	Raw        []obsItem `json:"raw,omitempty"`
 	PanicText  string    `json:"panic_text,omitempty"`
 }
 
 type runner struct {
-	sc       Scenario
-	dir      string
-	ag       *agent
-	cmd      *exec.Cmd
-	exited   chan struct{}
-	exitErr  error
-	taskID   mesos.TaskID
-	envID    uid.ID
-	reqs     []struct{ name, id string }
-	killAt   time.Time
-	killSent bool
-	ctlKill  bool
-	deadAt   time.Time
-	obs      Observation
-	nEvents  int
-	pos      int
-	self     string
+	sc         Scenario
+	dir        string
+	ag         *agent
+	cmd        *exec.Cmd
+	exited     chan struct{}
+	exitErr    error
+	taskID     mesos.TaskID
+	envID      uid.ID
+	reqs       []struct{ name, id string }
+	killAt     time.Time
+	killSent   bool
+	ctlKill    bool
+	deadAt     time.Time
+	sigsAtKill int
+	stopSent   bool
+	obs        Observation
+	nEvents    int
+	pos        int
+	self       string
 }
 
 var portMu sync.Mutex
@@ -489,6 +491,7 @@ func (r *runner) step(a string) {
 			time.Sleep(80 * time.Millisecond)
 		}
 	case "stop":
+		r.stopSent = true
 		r.transition("stop", "RUNNING", "STOP", "CONFIGURED", 2*time.Second)
 		time.Sleep(150 * time.Millisecond)
 	case "reset":
@@ -512,6 +515,13 @@ func (r *runner) step(a string) {
 		// let every child that saw the file go, then take it away for later children
 		time.Sleep(150 * time.Millisecond)
 		os.Remove(filepath.Join(r.dir, "go"))
+		if r.ctlKill {
+			// "the device leaves by itself during the escalation" is only that order if it left before
+			// the next signal of the escalation; on a loaded machine the signal may win
+			if raw, err := os.ReadFile(filepath.Join(r.dir, "sig")); err == nil && len(strings.Fields(string(raw))) > r.sigsAtKill {
+				r.obs.Unrealised = append(r.obs.Unrealised, "exit: the escalation's next signal came first")
+			}
+		}
 	case "listen":
 		os.WriteFile(filepath.Join(r.dir, "listen"), []byte("1"), 0o644)
 		// the executor's dial retries with backoff; the first GetState marks the end of the dial
@@ -561,6 +571,9 @@ func (r *runner) step(a string) {
 		if r.sc.Kind == "ctl" {
 			r.ctlKill = true
 			time.Sleep(500 * time.Millisecond)
+			if raw, err := os.ReadFile(filepath.Join(r.dir, "sig")); err == nil {
+				r.sigsAtKill = len(strings.Fields(string(raw)))
+			}
 		} else {
 			r.ag.waitFor(func([]obsItem) bool { return r.hasTerminal() || !r.executorAlive() }, time.Second)
 			time.Sleep(150 * time.Millisecond)
@@ -632,6 +645,32 @@ func runScenario(sc Scenario, dir string, keepRaw bool) Observation {
 
 	r.quiet(250 * time.Millisecond)
 	r.trackDeath()
+	// on a loaded machine a process that got SIGKILL may still show as running for a while, and the
+	// reaper's device event may lag behind the child's death: give both a moment
+	if r.sc.Kind != "ctl" && r.executorAlive() {
+		deadline := time.Now().Add(3 * time.Second)
+		for time.Now().Before(deadline) && r.executorAlive() {
+			dead := 0
+			for _, pl := range r.pidLines() {
+				if !procLive(pl[0]) {
+					dead++
+				}
+			}
+			if r.countClass("event") >= dead {
+				break
+			}
+			time.Sleep(25 * time.Millisecond)
+		}
+	}
+	if r.killSent || r.stopSent {
+		deadline := time.Now().Add(1500 * time.Millisecond)
+		for time.Now().Before(deadline) {
+			if n, _ := r.liveCount(); n == 0 && !r.gcAlive() {
+				break
+			}
+			time.Sleep(25 * time.Millisecond)
+		}
+	}
 	// a KILL for a task the executor does not know ends its event loop; the re-subscription
 	// (back-off 1-2 s) is part of the observation
 	if r.ag.liveStreams() == 0 {
